@@ -95,8 +95,15 @@ class Tokenizer(html.parser.HTMLParser):
         for ln in src.split("\n"):
             self._starts.append(self._starts[-1] + len(ln) + 1)
         self.open_marks = 0  # open marks minus close marks seen so far in character data
-        self.feed(src)
-        self.close()
+        try:
+            self.feed(src)
+            self.close()
+        except (AssertionError, ValueError, IndexError) as ex:  # html.parser gives up on some malformed declarations
+            d = self.rawdata
+            self.cdata_elem = None
+            self.ev.append({"k": "text", "raw": False, "p": [], "tn": 0, "refs": [], "bad": ["untokenizable"], "_d": d,
+                            "o": max(len(src) - len(d), self.ev[-1]["o"] if self.ev else 0)})
+            self.rawdata = ""
         if self.rawdata:
             if self.cdata_elem is None:
                 raise MachineryFailure("html.parser left %d characters unconsumed" % len(self.rawdata))
@@ -377,7 +384,7 @@ def events_of_run(pages, uni, run_id, pg0):
     ev = [{"k": "run", "run": run_id, "exp": exp}]
     index, links, spans_seen, amb = {}, [], {}, set()
     for j, (path, text) in enumerate(pages.items()):
-        pg = pg0 + j
+        pg = pg0 + j + 1
         index[pg] = path
         ev.append({"k": "doc", "pg": pg, "path": [cps(s) for s in path.split("/")]})
         tk = Tokenizer(text, names)
@@ -566,9 +573,11 @@ def verdicts(ctx, results, cases, origin):
             path = r["index"][rec["pg"]]
             if rec["tag"] == "NOTE":
                 summ["fidelity"].add((path, rec["arg"]))
-                ctx.ambiguous("text between the sentinels of span %d on %s differs from the DSDL text (character reference decoded): "
-                              "'appears as text' read as 'is character data' holds, read as 'same characters' does not; payload %r"
-                              % (rec["arg"], path, uni.spans.get(rec["arg"])))
+                ctx.cov["text_fidelity_notes"] = ctx.cov.get("text_fidelity_notes", 0) + 1
+                if ctx.cov["text_fidelity_notes"] <= 3:
+                    ctx.ambiguous("text between the sentinels of span %d on %s differs from the DSDL text (character reference decoded): "
+                                  "'appears as text' read as 'is character data' holds, read as 'same characters' does not; payload %r"
+                                  % (rec["arg"], path, uni.spans.get(rec["arg"])))
             elif rec["clause"] == "html.link":
                 href = to_s(rec["href"])
                 summ["links"].add((path, href, rec["detail"]))
@@ -749,7 +758,9 @@ def run(ctx):
             continue
         rid = len(cases)
         public = rid % ctx.pick(16, 8) == 5
-        cases[rid] = {"universe": universe_from_shape(sh, payloads, 5 * rid), "public": public, "shape": sh}
+        # every 4th shape run carries plain text only, so that balance and links are also judged on pages no payload can disturb
+        pl = ["plain text %d" % k for k in range(5)] if rid % 4 == 0 else payloads
+        cases[rid] = {"universe": universe_from_shape(sh, pl, 5 * rid), "public": public, "shape": sh}
         jobs.append((rid, cases[rid]["universe"], public, scratch))
     n_model = len(cases)
     # ---- 3. code -> spec: larger random universes (deeper trees, more types, payloads over a larger alphabet) ----------
@@ -844,7 +855,7 @@ def compare_with_ilayer(ctx, cases, by_run, summary, texts, n_model):
         sh = c["shape"]
         # text: the stub page of Zqt1 carries exactly one span (its type doc, span 1) inside <pre>
         stub = "/".join(seg(sh["dst"]) + ["Zqt1_1_0.html"])
-        if stub in r["sizes"]:
+        if stub in r["sizes"] and c["universe"]["spans"][1] in pred:
             obs = frozenset((["html.sentinel"] if stub in s["sentinel"] else []) + (["html.balanced"] if stub in s["balanced"] else []))
             pn, pe = pred[c["universe"]["spans"][1]]
             k = "both" if obs == pn == pe else "none" if obs == pn else "markupsafe" if obs == pe else "neither"
@@ -877,66 +888,85 @@ def compare_with_ilayer(ctx, cases, by_run, summary, texts, n_model):
 
 
 def selftests(ctx):
-    """corrupt one recorded field of a real trace: the T-layer must reject exactly there"""
+    """corrupt one recorded field of a real trace: the T-layer must reject exactly there.  The corruptions are defined on whatever the
+    current tree produces (a tree that violates the property must still get its verdict, not a harness failure)."""
+    import collections
+
     case = {"types": [{"ns": ["zqra"], "name": "Zqt1", "kind": "struct", "refs": [], "doc": 1, "fdoc": 2},
                       {"ns": ["zqra"], "name": "Zqt2", "kind": "struct", "refs": [{"to": 0, "how": "plain"}], "doc": 0}],
             "nsdocs": [], "spans": {1: "benign", 2: "also benign"}}
     base = work((0, case, False, str(ctx.scratch)))
     if base["error"]:
-        raise MachineryFailure("self-test universe could not be generated: %s" % base["error"])
+        ctx.not_exercised("binding self-tests: the self-test universe could not be generated (%s)" % base["error"])
+        return
     evs = [json.loads(ln) for ln in open(base["trace"])]
-    idx = {v: k for k, v in base["index"].items()}
-    pg = idx["zqra/index.html"]
 
-    def variant(name, mutate):
-        ev2 = json.loads(json.dumps(evs))
-        mutate(ev2)
+    def verdict_of(name, ev2):
         p = ctx.scratch / ("self-%s.ndjson" % name)
         with open(p, "w") as f:
             for e in ev2:
                 f.write(json.dumps(e, separators=(",", ":")) + "\n")
-        return dict(base, trace=str(p), nev=len(ev2), run=0)
+        recs = judge(ctx, [dict(base, trace=str(p), nev=len(ev2), run=0)], per_batch=1).get(0, [])
+        return collections.Counter((r["clause"], r["detail"]) for r in recs if r["tag"] == "REJECT")
 
-    def m_markup(ev2):  # the text between the sentinels of span 1 becomes an element
-        for i, e in enumerate(ev2):
-            if e.get("pg") == pg and e["k"] == "text" and [p["m"] for p in e["p"]] == [1, 0, 2] and e["p"][0]["i"] == 1:
-                e["p"] = e["p"][:1]
-                ev2.insert(i + 1, {"k": "open", "pg": pg, "n": e["n"], "t": cps("b"), "a": [], "sc": False, "taint": 0, "tainto": 0, "bad": []})
-                ev2.insert(i + 2, {"k": "close", "pg": pg, "n": e["n"], "t": cps("b"), "taint": 0, "tainto": 0, "bad": []})
-                ev2.insert(i + 3, {"k": "text", "pg": pg, "n": e["n"], "raw": False, "p": [{"m": 2, "i": 1, "s": []}], "tn": 0, "refs": [], "bad": []})
-                return
-        raise MachineryFailure("self-test: span 1 not found as character data")
+    def copy():
+        return json.loads(json.dumps(evs))
 
-    def m_id(ev2):  # the anchor of Zqt1 disappears
-        for e in ev2:
-            if e.get("pg") == pg and e["k"] == "open":
-                for a in e["a"]:
-                    if to_s(a["n"]) == "id" and plain(a["v"]) == "zqra_Zqt1_1_0":
-                        a["v"] = [{"m": 0, "i": 0, "s": cps("zqra_Zqt1_1_1")}]
-                        return
-        raise MachineryFailure("self-test: anchor of Zqt1 not found")
-
-    def m_close(ev2):  # one end tag is lost
-        for i, e in enumerate(ev2):
-            if e.get("pg") == pg and e["k"] == "close" and to_s(e["t"]) == "div":
-                del ev2[i]
-                return
-
-    def m_none(ev2):
-        pass
-
-    variants = [("unchanged", m_none), ("markup", m_markup), ("id", m_id), ("close", m_close)]
-    got = {}
-    for name, mut in variants:
-        v = variant(name, mut)
-        recs = judge(ctx, [v], per_batch=1).get(0, [])
-        got[name] = {(r["clause"], r["detail"]) for r in recs if r["tag"] == "REJECT" and r["pg"] == pg}
-    basec = got["unchanged"]
-    ctx.selftest("text between sentinels turned into an element is rejected (html.sentinel markup-in-span)",
-                 ("html.sentinel", "markup-in-span") in got["markup"] - basec)
-    ctx.selftest("removed anchor of a referenced type is rejected (html.link anchor-not-produced)",
-                 ("html.link", "anchor-not-produced") in got["id"] - basec)
-    ctx.selftest("dropped end tag is rejected (html.balanced)", any(c == "html.balanced" for c, _ in got["close"] - basec))
+    base_c = verdict_of("unchanged", evs)
+    # (1) the text between the sentinels of a span that arrived as character data becomes an element
+    i = next((i for i, e in enumerate(evs) if e["k"] == "text" and not e["raw"] and [p["m"] for p in e["p"]] == [1, 0, 2]), None)
+    if i is None:
+        ctx.not_exercised("binding self-test 'markup in span': no sentinel span arrives as plain character data on this tree")
+    else:
+        ev2 = copy()
+        e = ev2[i]
+        sid, pg = e["p"][0]["i"], e["pg"]
+        e["p"] = e["p"][:1]
+        ev2[i + 1:i + 1] = [{"k": "open", "pg": pg, "n": e["n"], "t": cps("b"), "a": [], "sc": False, "taint": 0, "tainto": 0, "bad": []},
+                            {"k": "close", "pg": pg, "n": e["n"], "t": cps("b"), "taint": 0, "tainto": 0, "bad": []},
+                            {"k": "text", "pg": pg, "n": e["n"], "raw": False, "p": [{"m": 2, "i": sid, "s": []}], "tn": 0, "refs": [], "bad": []}]
+        got = verdict_of("markup", ev2) - base_c
+        ctx.selftest("text between sentinels turned into an element is rejected (html.sentinel markup-in-span)", got[("html.sentinel", "markup-in-span")] >= 1)
+    # (2) a type-reference hyperlink is pointed at an anchor of its own page (accepted), then the anchor is renamed (must be rejected)
+    link = anchor = None
+    for i, e in enumerate(evs):
+        if e["k"] == "open" and to_s(e["t"]) == "a" and any(to_s(a["n"]) == "href" and a["hv"] for a in e["a"]):
+            for f in evs[i + 1:]:
+                if f["k"] == "close":
+                    break
+                if f["k"] == "text" and f["refs"]:
+                    link = i
+                    break
+        if link is not None:
+            break
+    if link is not None:
+        pg = evs[link]["pg"]
+        anchor = next((i for i, e in enumerate(evs) if e["k"] == "open" and e["pg"] == pg and any(to_s(a["n"]) == "id" and plain(a["v"]) for a in e["a"])), None)
+    if link is None or anchor is None:
+        ctx.not_exercised("binding self-test 'anchor': no type-reference hyperlink / no id on this tree's pages")
+    else:
+        def retarget(ev2, newid):
+            ida = next(a for a in ev2[anchor]["a"] if to_s(a["n"]) == "id")
+            old = plain(ida["v"])
+            for a in ev2[link]["a"]:
+                if to_s(a["n"]) == "href":
+                    a["v"] = [{"m": 0, "i": 0, "s": cps("#" + old)}]
+            if newid:
+                ida["v"] = [{"m": 0, "i": 0, "s": cps(old + "~")}]
+            return ev2
+        ok_c = verdict_of("anchor-ok", retarget(copy(), False))
+        bad_c = verdict_of("anchor-renamed", retarget(copy(), True))
+        ctx.selftest("renamed anchor of a type-reference hyperlink is rejected (html.link anchor-not-produced)",
+                     (bad_c - ok_c)[("html.link", "anchor-not-produced")] >= 1)
+    # (3) the last end tag of a page is lost
+    i = next((i for i in range(len(evs) - 1, -1, -1) if evs[i]["k"] == "close" and not evs[i]["bad"]), None)
+    if i is None:
+        ctx.not_exercised("binding self-test 'lost end tag': no end tag on this tree's pages")
+    else:
+        ev2 = copy()
+        del ev2[i]
+        got = verdict_of("close", ev2) - base_c
+        ctx.selftest("dropped end tag is rejected (html.balanced)", any(c == "html.balanced" and n >= 1 for (c, _), n in got.items()))
     # spec -> code direction: a perturbed expected outcome must be noticed by the comparison
     sh = {"src": [cps("zqra")], "dst": [cps("zqra")], "pages": [[cps("zqra"), cps("index.html")]], "links_code": [], "links_fixed": [],
           "broken_code": [], "broken_fixed": []}
